@@ -43,6 +43,10 @@ CHECKS["C12"] = dict(level="exploration", ref="6/C12",
    text="Seeded search over producer histories and delimiter modes (styp, raw sidx v0/v1 with first_offset, raw mfra + ISM flag on a seekable simulated disk incl. seek errors, none, start-on-moof), decode path/mode/delivery, and UpdateSidx/Encode histories; grouping is compared with the producer's emission log, re-encoded bytes with the emitted units, and the index with positions and durations found independently in the output bytes.",
    note="Pure delimiter modes only (precedence between mixed delimiters is not defined by the statement); reference walker/demuxer vsim/ref trusted; reference_ID and earliest_presentation_time values not constrained by the statement.",
    technique="deterministic simulation: unit-stream state machine driven by a producer log + seekable SimDisk; conservation/order of moof-mdat pairs and index tiling vs independent walk")
+CHECKS["C06"] = dict(level="exploration", ref="6/C06",
+   text="Seeded search over clear single-track productions (real AVC/HEVC/AAC corpus samples and synthetic payloads at the CENC size thresholds), schemes, keys, IV sizes/values incl. counter wrap, foreign boxes in moof/traf, two encryptor flows (decoded vs freshly built objects), and player behaviour: whole stream or separately delivered init, segment order/repeats, decode path, delivery, re-encode mode; oracle = clear sample log read back by an independent demuxer, restored sample entry, multiset of non-protection boxes; third-party encrypted corpus files keep sizes and timing.",
+   note="Standard-conformance of the ciphertext is C07 (not decided); single track / single trun per fragment as the API documents; reference demuxer vsim/ref trusted; box order is not demanded (multiset).",
+   technique="deterministic simulation: producer -> encryptor -> origin -> player with seeded unit transport (separate init, order, repeats) and delivery; conservation vs clear sample log and box inventory")
 PENDING = {k: "claimed in DESIGN.md but its check is not built yet in this revision (work in progress; will move to checks)" for k in ["C02","C03","C04","C05","C06","C10","C11","C12","C19","C20"] if k not in CHECKS}
 def main():
     checks = []
